@@ -129,9 +129,14 @@ partial def parseProg (toks : List String) (st : List (OpExpr Float)) : Option (
     | a :: st' => parseProg r (.dgr a :: st')
     | _ => none
   | op :: r =>
-    if op == "mul" || op == "mulassign" || op == "append" || op == "pushall" then
+    if op == "mul" || op == "mulassign" || op == "append" || op == "pushall" || op == "cycle" then
       match st with
       | b :: a :: st' => parseProg r (.mul a b :: st')
+      | _ => none
+    else if op == "pushfront" then
+      -- `for g in b.rev() { a.push_front(g) }`: the queue b followed by the queue a
+      match st with
+      | b :: a :: st' => parseProg r (.mul b a :: st')
       | _ => none
     else none
 
@@ -858,7 +863,7 @@ def stepReg (st : DSt) (r : Report) (ln : Nat) (cmd obs : List String) : Option 
       let r := if m &&& (2 ^ 64 - 1 - cr.qMask) == 0 && cr.value < 2 ^ cr.qNum then
                  specCheck r st ln "c20.creg.range" (v < 2 ^ cr.qNum) s!"< 2^{cr.qNum}" (toString v) else r
       some ({ st with c := some cr' }, r)
-    else if c == "ctensor" then do
+    else if c == "ctensor" || c == "cmulassign" then do
       let n2 ← tokNat a; let s2 ← tokNat b
       let cr ← st.c
       let other := CReg.withState n2 s2
